@@ -1,0 +1,33 @@
+//go:build verif
+
+// Machine-checked specifications for package userauth (comment-only file; read
+// by /verif/bin/hopvc).
+
+package userauth
+
+// (C18) the request starts with the 16-bit big-endian length of the name followed by the name.
+//@ func (msg *userAuthInitMsg) toBytes() (out []byte)
+//@   property C18
+//@   pure
+//@   requires len(msg.username) <= 65535
+// (the message is two bytes longer than what GetInitMsg consumes: two trailing zero bytes stay unread in the tube)
+//@   ensures len(out) == 4 + len(msg.username) && out[0] == uint8(len(msg.username) >> 8) && out[1] == uint8(len(msg.username))
+//@   ensures bytes(out[2:2+len(msg.username)]) == bytes(msg.username)
+
+//@ func newUserAuthInitMsg(user string) (m *userAuthInitMsg)
+//@   inline
+
+// an over-long name is refused before anything is sent (toBytes' precondition holds at the call)
+//@ func RequestAuthorization(ch *tubes.Reliable, username string) (ok bool)
+//@   property C18
+//@   ensures len(username) > 65535 ==> !ok && !called(tubes.Reliable.Write)
+//@ func (r *tubes.Reliable) Write(b []byte) (n int, err error)
+//@   assume reliable tube write (C08)
+//@   modifies opaque(r)
+//@ func (r *tubes.Reliable) Read(b []byte) (n int, err error)
+//@   assume reliable tube read (C09)
+//@   modifies b[:], opaque(r)
+//@ func io.ReadFull(r io.Reader, buf []byte) (n int, err error)
+//@   assume standard library: fills buf from r
+//@   modifies buf[:], opaque(r)
+//@   ensures 0 <= n && n <= len(buf)
